@@ -87,6 +87,16 @@ def plan(tier: str, seed: int) -> Plan:
         conds.append(Condition(name, name.split(":")[0], H, "apply_ops", params, T, required=False,
                                bounds=f"document {{a: array of length<={params['maxn']}, b: {{c, '1': [..]}}, '1'}} with symbolic leaves; "
                                       "indices $i,$j symbolic in [0, len+2]; values symbolic"))
+    twice = [
+        ("twice:replace-root-then-edit", [{"op": "replace", "path": [], "value": {"a": ["$v"], "b": {}}}, {"op": "add", "path": ["a", "-"], "value": "$w"}]),
+        ("twice:add-root-then-edit", [{"op": "add", "path": [], "value": {"a": [], "b": {"c": "$v"}}}, {"op": "add", "path": ["b", "n"], "value": "$w"}, {"op": "remove", "path": ["b", "c"]}]),
+        ("twice:add-container-then-edit", [{"op": "add", "path": ["n"], "value": {"x": ["$v"]}}, {"op": "add", "path": ["n", "x", 0], "value": "$w"}]),
+        ("twice:replace-container-then-edit", [{"op": "replace", "path": ["b"], "value": ["$v"]}, {"op": "add", "path": ["b", "-"], "value": "$w"}, {"op": "remove", "path": ["b", 0]}]),
+        ("twice:add-then-move", [{"op": "add", "path": ["n"], "value": ["$v", ["$w"]]}, {"op": "move", "from": ["n", 1], "path": ["m"]}, {"op": "add", "path": ["m", "-"], "value": "$v"}]),
+    ]
+    for name, ops in twice:
+        conds.append(Condition(name, "twice", H, "apply_ops", {"ops": ops, "maxn": 1, "twice": True, "deepcopy_ops": True}, T, required=False,
+                               bounds="a patch whose container value is edited by its own later operations, applied twice to equal documents"))
     conds.append(Condition("copy-independence", "copy", H, "copy_independent", {}, T, bounds="3 copy-then-mutate patches on a symbolic source"))
     return Plan(
         conditions=conds,
